@@ -31,7 +31,8 @@ class Case:
     collab: dict = field(default_factory=dict)
     cancel: t.Optional[t.Tuple[int, int]] = None  # (run id, global step index)
     fam: str = ''
-    chart_factory: t.Optional[t.Callable] = None   # for repo-tests / shared charts
+    chart_factory: t.Optional[t.Callable] = None   # for shared charts
+    coro_factory: t.Optional[t.Callable] = None    # repo-tests family: the 'run' is an arbitrary coroutine (a test function)
 
     def key(self) -> str:
         import json
@@ -97,6 +98,8 @@ def outcome_of(task: asyncio.Task):
     if exc is not None:
         return ('raised', exc)
     res = task.result()
+    if res is None:
+        return ('value', None, None)
     if getattr(res, 'error', None) is not None:
         return ('error', res.error, res)
     return ('value', res.value, res)
@@ -106,7 +109,7 @@ def execute(case: Case, prefix: t.Sequence[str] = (), bound: int = 0, reduce: bo
             chart: t.Any = None, horizon: int = HORIZON, world_hook: t.Optional[t.Callable] = None,
             policy: str = 'first') -> Execution:
     _install()
-    if chart is None:
+    if chart is None and case.coro_factory is None:
         chart = case.chart_factory() if case.chart_factory else codegen.chart(case.spec, case.collab)
     world = W.World(case.plans, case.collab)
     W.CUR = world
@@ -123,6 +126,8 @@ def execute(case: Case, prefix: t.Sequence[str] = (), bound: int = 0, reduce: bo
         for rid in range(nruns):
             async def runner(rid=rid):
                 W.RUN.set(rid)
+                if case.coro_factory is not None:
+                    return await case.coro_factory()
                 return await chart.run(pipeline_id=f'run{rid}', input_kwargs=given_inputs[rid])
             tasks.append(loop.create_task(runner(), name=f'mc-run{rid}'))
         steps = 0
